@@ -19,6 +19,7 @@ mod reader;
 mod session;
 mod timer;
 mod gentrace;
+mod genunify;
 
 use serde_json::Value;
 
@@ -77,6 +78,8 @@ fn main() {
         "replay" => sandbox::parent(&args[2], &args[3]),
         "worker" => sandbox::worker(&args[2], &args[3], args[4].parse().unwrap()),
         "gen-trace" => gentrace::main(&args[2], args[3].parse().unwrap(), args[4].parse().unwrap()),
+        "gen-unify-trace" => genunify::main(&args[2], args[3].parse().unwrap(), args[4].parse().unwrap()),
+        "gen-unify-worker" => genunify::worker(&args[2], args[3].parse().unwrap(), args[4].parse().unwrap(), args[5].parse().unwrap()),
         "record" => gentrace::record_one(&args[2], &args[3]),
         "gen-trace-worker" => gentrace::worker(&args[2], args[3].parse().unwrap(), args[4].parse().unwrap(), args[5].parse().unwrap()),
         _ => { eprintln!("unknown command"); 2 }
